@@ -251,3 +251,52 @@ Print Assumptions C19_source_hex.
 Print Assumptions C19_source_prefix.
 Print Assumptions C19_source_skips.
 Print Assumptions C19_source_same_sequence.
+
+(* ---------------------------------------------------------------- translator tie of the pass orchestration
+
+   gen/TrainerRun_gen.v holds the line-by-line image of the whole of run_trainer (lib_trainer/run_trainer.py),
+   written on every run by harness/translate_trainer_run.py over the runtime theories/TrainerRunRt.v: the
+   classes run_trainer instantiates, their methods and the functions it imports are the fields of a record of
+   collaborators [collab].  The theorems hold for EVERY instantiation of the collaborators. *)
+From Pcfg Require Import WriterRt TrainerRunRt TrainerRunModel TrainerRunProofs TrainerRunGenProofs TrainerRunGenFacts.
+From PcfgGen Require Import TrainerRun_gen.
+
+(* the translated run_trainer is the hand-written model: ONE opening and reading of the training file with
+   (training_file, encoding, prefixcount) of the run, three folds over the sequence it yields *)
+Theorem C19_source_run_trainer_is_model : forall (O : numops) (C : collab O) (pi : pinfo O) (base : path) (w : c_W C),
+  py_run_trainer C pi base w = m_run_trainer C pi base w.
+Proof. exact py_run_trainer_is_model. Qed.
+
+(* "all three training passes see the same password sequence": in a run that returns True the reader opened
+   with the training file, the encoding and the --prefixcount setting of the run yields a sequence seq to its
+   end, and the alphabet generator, the multi-word detector (pass 1), the OMEN trainer, the PCFG parser (pass 2)
+   and the level evaluation (pass 3) are each the fold of their step over that same seq, in order;
+   N = num_passwords of that reader is not 0 *)
+Theorem C19_source_three_passes_one_sequence : forall (O : numops) (C : collab O) (pi : pinfo O) (base : path) (w w' : c_W C),
+  py_run_trainer C pi base w = (Ok (Some true), w') ->
+  exists (seq : list str) (fi0 fiE : c_FI C) (ag0 ag1 : c_AG C) (mw0 mw1 mw2 : c_MW C) (ot0 ot1 ot2 : c_OT C)
+         (pp0 pp1 : c_PP C) (lc : list (Z * N)),
+    c_TrainerFileInput C (pi_training_file pi) (pi_encoding pi) (pi_prefixcount pi) w = Ok fi0 /\
+    c_read_password C fi0 w = (seq, None, fiE) /\
+    c_AlphabetGenerator C (pi_alphabet_size pi) (pi_ngram pi) = Ok ag0 /\
+    c_MultiWordDetector C 5 4 21 = Ok mw0 /\ pretrain C pi mw0 w = Ok mw1 /\
+    fold_res (c_process_password C) seq ag0 = Ok ag1 /\
+    fold_res (fun m p => c_mw_train C m p false) seq mw1 = Ok mw2 /\
+    c_num_passwords C fiE <> 0%N /\
+    c_PCFGPasswordParser C mw2 = Ok pp0 /\
+    fold_res (c_ot_parse C) seq ot0 = Ok ot1 /\
+    fold_res (c_pp_parse C) seq pp0 = Ok pp1 /\
+    c_apply_smoothing C ot1 = Ok ot2 /\
+    fold_res (step3 C ot2) seq [] = Ok lc.
+Proof. exact (@source_three_passes_one_sequence). Qed.
+
+(* blank / invalid / undecodable lines never abort the training by themselves: unless the three passes completed
+   run_trainer returns something else than True and leaves the world as it was (nothing leaks into a ruleset) *)
+Theorem C19_source_untouched_without_ruleset : forall (O : numops) (C : collab O) (pi : pinfo O) (base : path) (w : c_W C),
+  (exists t, passes C pi w = Ok (inr t)) \/
+  (exists r, py_run_trainer C pi base w = (r, w) /\ r <> Ok (Some true)).
+Proof. exact (@source_untouched_without_ruleset). Qed.
+
+Print Assumptions C19_source_run_trainer_is_model.
+Print Assumptions C19_source_three_passes_one_sequence.
+Print Assumptions C19_source_untouched_without_ruleset.
